@@ -10,6 +10,7 @@ import (
 	"math"
 	"os"
 	"sort"
+	"strings"
 
 	"github.com/tdewolff/canvas"
 	"verifharness/hc"
@@ -54,6 +55,36 @@ func expectedIntervals(offset float64, d []float64, L float64) [][2]float64 {
 		i = (i + 1) % len(dd)
 	}
 	return out
+}
+
+// firstDiff: the first stretch on which the two unions differ (for failure messages).
+func firstDiff(a, b [][2]float64, L float64) string {
+	pts := []float64{0, L}
+	for _, iv := range a {
+		pts = append(pts, iv[0], iv[1])
+	}
+	for _, iv := range b {
+		pts = append(pts, iv[0], iv[1])
+	}
+	sort.Float64s(pts)
+	in := func(s [][2]float64, x float64) bool {
+		for _, iv := range s {
+			if iv[0] <= x && x < iv[1] {
+				return true
+			}
+		}
+		return false
+	}
+	for i := 0; i+1 < len(pts); i++ {
+		if pts[i+1]-pts[i] < 1e-9 || pts[i] < 0 || pts[i+1] > L {
+			continue
+		}
+		mid := (pts[i] + pts[i+1]) / 2
+		if in(a, mid) != in(b, mid) {
+			return fmt.Sprintf("first difference on %.6g..%.6g (pattern drawn=%v)", pts[i], pts[i+1], in(a, mid))
+		}
+	}
+	return "no difference"
 }
 
 // symDiff: measure of the symmetric difference of two unions of intervals inside [0,L].
@@ -209,7 +240,7 @@ func (f *fineSub) candidates(q hc.P2, smin float64) []float64 {
 		if s < smin-1e-5*(1+f.L) {
 			continue
 		}
-		if n := len(out); n > 0 && i <= lastChord+2 {
+		if n := len(out); n > 0 && i <= lastChord+2 && i/f.n == lastChord/f.n {
 			// same passage seen from a neighbouring chord: keep the closer one
 			if dq < outDist[n-1] {
 				out[n-1], outDist[n-1] = s, dq
@@ -222,6 +253,17 @@ func (f *fineSub) candidates(q hc.P2, smin float64) []float64 {
 		lastChord = i
 	}
 	return out
+}
+
+// reversed returns the flattening of the same piece traversed backwards.
+func reversed(f *fineSub) fineSub {
+	n := len(f.pts)
+	r := fineSub{n: f.n, L: f.L, maxSeg: f.maxSeg, straight: f.straight, pts: make([]hc.P2, n), cum: make([]float64, n)}
+	for i := 0; i < n; i++ {
+		r.pts[i] = f.pts[n-1-i]
+		r.cum[i] = f.L - f.cum[n-1-i]
+	}
+	return r
 }
 
 type obsPiece struct {
@@ -255,7 +297,7 @@ func locate(f *fineSub, pf *fineSub, smin float64) (obsPiece, bool) {
 			best = obsPiece{a: s0, b: s0 + pf.L, dev: dev}
 			found = true
 		}
-		if dev < 1e-4*(1+f.L) {
+		if dev < 1e-9*(1+f.L) {
 			break
 		}
 	}
@@ -355,7 +397,9 @@ func judgeDash(c *hc.Ctx, tag string, p *canvas.Path, off float64, d []float64, 
 		c.Count(tag + ":judged-ok")
 		return
 	}
-	if beyondPeriod(off, d) {
+	if ksub != nil && ksub.f.straight && beyondPeriod(off, d) {
+		// regression class of the defect repaired by 8d5b47c (only named so on straight subpaths,
+		// where no arc-length approximation can be the cause)
 		kind = "pattern-mismatch:negative-offset-beyond-period"
 	} else if ksub != nil && ksub.path != nil && math.IsNaN(ksub.path.Length()) {
 		kind = "path-length-not-finite"
@@ -476,11 +520,29 @@ func judgeDash1(c *hc.Ctx, tag string, p *canvas.Path, off float64, d []float64,
 			}
 		}
 		if !located {
+			// Is the piece a stretch of the input path at all (anywhere, in either direction)? If it
+			// is, the pieces overlap or are out of order (that can be the inverse arc-length
+			// approximation); if it is not, the piece has left the path: never attributed to accuracy.
+			onPath := false
+			for kk := range subs {
+				if o, ok := locate(&subs[kk], &pf, 0); ok && o.dev < 1e-3*(1+subs[kk].L) {
+					onPath = true
+					break
+				}
+				rv := reversed(&pf)
+				if o, ok := locate(&subs[kk], &rv, 0); ok && o.dev < 1e-3*(1+subs[kk].L) {
+					onPath = true
+					break
+				}
+			}
+			if !onPath {
+				return "piece-off-path:" + tag, fmt.Sprintf("piece %q is not a stretch of the input path", pathOf(pc)), nil
+			}
 			var j *subJudge
 			if k < len(sj) && sj[k].path != nil {
 				j = sj[k]
 			}
-			return "piece-off-path:" + tag, fmt.Sprintf("piece %q is not a stretch of the input path following the previous piece (subpath %d from arc length %.6g)", pathOf(pc), k, smin), j
+			return "piece-out-of-order:" + tag, fmt.Sprintf("piece %q lies on the input path but does not follow the previous piece (subpath %d from arc length %.6g)", pathOf(pc), k, smin), j
 		}
 	}
 	// compare per subpath
@@ -541,11 +603,11 @@ func judgeDash1(c *hc.Ctx, tag string, p *canvas.Path, off float64, d []float64,
 				}
 				if nearEnd && lastInside > 0 && symDiff(clip(want), clip(got), lastInside) <= float64(nb)*tolCut {
 					return "end-boundary-parity:" + tag, fmt.Sprintf("subpath %d (length %.6g, Path.Length %.6g): a pattern boundary lies within %.3g of the end and the final stretch after %.6g is drawn/skipped wrongly: drawn %v, pattern %v",
-						kk, f.L, lenOf(sj[kk].path), tolCut, lastInside, short(got), short(want)), nil
+						kk, f.L, lenOf(sj[kk].path), tolCut, lastInside, short(got), short(want)), j
 				}
 			}
-			return "pattern-mismatch:" + tag, fmt.Sprintf("subpath %d (length %.6g): drawn stretches %v, pattern prescribes %v; symmetric difference %.4g > %.4g",
-				kk, f.L, short(got), short(want), sd, float64(nb)*tolCut), j
+			return "pattern-mismatch:" + tag, fmt.Sprintf("subpath %d (length %.6g): drawn stretches %v, pattern prescribes %v; symmetric difference %.4g > %.4g; %s",
+				kk, f.L, short(got), short(want), sd, float64(nb)*tolCut, firstDiff(want, got, f.L)), j
 		}
 		// structure, only when no boundary is within the tolerance band of another one or of the ends
 		clear := true
@@ -701,9 +763,9 @@ func oracleCurves(c *hc.Ctx) {
 		c.Count(tag + ":pattern " + cls)
 		c.Count(tag + ":" + ocls)
 		c.Count(tag + ":kinds " + kinds)
-		// Guard (library functions used only to keep the harness safe, not to judge): Path.Length
-		// must be finite, otherwise Dash's position loop `for pos+d[i]+Epsilon < length` never ends
-		// (+Inf; confirmed standalone: allocates until out of memory) or never starts (NaN).
+		// Safety net (regression class of the defect repaired by 4102be9): Path.Length must be
+		// finite, otherwise Dash's position loop never ends (+Inf) or never starts (NaN). Counted as
+		// a failure, never skipped silently; Dash is not called so that the harness survives.
 		if l := p.Length(); math.IsNaN(l) || math.IsInf(l, 0) {
 			c.Evals++
 			fail(c, "path-length-not-finite", fmt.Sprintf("Path.Length() = %v; Dash(%v, %v) would not terminate (+Inf) or returns the path undashed (NaN); Dash not called", l, off, d),
@@ -746,6 +808,47 @@ func oracleCurves(c *hc.Ctx) {
 		if it == 1 {
 			c.Sample(fmt.Sprintf("oracle: Dash(%v, %v) on %q = %q", off, d, p.String(), q.String()))
 		}
+	}
+}
+
+// oracleRegressions replays the recorded inputs of the repaired defects on every run, so that a
+// recurrence is reported with its input whatever the seed.
+func oracleRegressions(c *hc.Ctx) {
+	cases := []struct {
+		name, path string
+		off        float64
+		d          []float64
+	}{
+		{"8d5b47c negative offset beyond one period", "M0 0L10 0", -5, []float64{2, 2}},
+		{"8d5b47c negative offset after folded leading zero", "M-1 0.25L3.625 0.25", -5, []float64{0, 5.375, 1.375, 3.375}},
+		{"d3f7b7f cut between SplitAt's length and Path.Length (arc+quad)", "M2 -4.5A13.99387774096553 6.996938870482765 30.392049502180505 1 1 -14.036 1Q0.325 10.114 -2.638 3.5", 7.644705817225682, []float64{5.764, 4.535}},
+		{"4102be9 collinear quad, Length was +Inf", "M-3.5 -1Q-2.415 -1 -8.25 -1", 0, []float64{1.75, 1.625}},
+		{"4102be9 quad ending at its start, Length was NaN", "M-12.8 11.062Q7 -8.5 -5 7.367Q-16.953 1.161 -9 -3Q3.75 4.75 -9 -3z", 3, []float64{3.9, 7.142}},
+		{"219108c dash through a 180 degree turn", "M-3 4.25L-3 -11.094z", 48.5, []float64{0.625, 0.75}},
+		{"feae37f arc theta panic", "M0.46 1A20.229 3.491 0.01986189541452029 1 0 -3.75 -1.549A6.330337194810294 3.5119292427551345 30.000000000000014 0 0 7.75 2.25A16.25 1.702 59.99999999999999 1 0 4 -4.246A18.815 8 150.00000000000003 1 1 -14.818 8.715", 148, []float64{3.125, 1}},
+	}
+	for _, tc := range cases {
+		p, err := canvas.ParseSVGPath(tc.path)
+		if err != nil {
+			continue
+		}
+		c.Count("regression-input: " + tc.name)
+		replay := map[string]any{"path": tc.path, "offset": tc.off, "d": tc.d, "regression": tc.name}
+		if l := p.Length(); math.IsNaN(l) || math.IsInf(l, 0) {
+			c.Evals++
+			fail(c, "path-length-not-finite", fmt.Sprintf("Path.Length() = %v on %q; Dash not called", l, tc.path), replay)
+			continue
+		}
+		var q *canvas.Path
+		if msg := hc.Try(func() { q = p.Dash(tc.off, append([]float64{}, tc.d...)...) }); msg != "" {
+			fail(c, "panic:Dash", msg, replay)
+			continue
+		}
+		tag := "curve"
+		if !strings.ContainsAny(tc.path, "QCA") {
+			tag = "polyline"
+		}
+		judgeDash(c, tag, p, tc.off, tc.d, q)
 	}
 }
 
